@@ -139,6 +139,28 @@ def o_disulfide_consequence(ctx):
     ctx.claim('reported-either-way', g.use_in_calculations() is True)
 
 
+def o_disulfide_with_selection(ctx):
+    """'a bridged cysteine is not titrated' under every --titrate_only setting: the real init_group on a cysteine
+    with the bridge flag set / not set, and the option absent, naming this residue, or naming another one"""
+    import propka.group as G
+    bridged = ctx.choice('bridged', [False, True])
+    sel = ctx.choice('titrate_only', ['option-absent', 'names-this-residue', 'names-another-residue', 'empty-list'])
+    lst = {'option-absent': None, 'names-this-residue': [('A', 5, ' '), ('B', 7, ' ')], 'names-another-residue': [('A', 6, ' ')], 'empty-list': []}[sel]
+    mol = H.molecule(options=H.Opts(titrate_only=lst))
+    conf = H.conformation('1A', mol=mol)
+    sg = H.atom('SG', 'CYS', 5, 'A', 0.0, 0.0, 0.0)
+    sg.cysteine_bridge = bridged
+    g = G.CYSGroup(sg)
+    conf.init_group(g)
+    listed = sel in ('option-absent', 'names-this-residue')
+    ctx.claim('titrated-iff-free-and-selected', g.titratable == ((not bridged) and listed), detail='bridged=%r, %s: titratable=%r' % (bridged, sel, g.titratable))
+    g.energy_volume = ctx.real('ev', -5, 5)
+    g.energy_local = ctx.real('el', -5, 5)
+    g.calculate_total_pka()
+    if bridged:
+        ctx.claim('bridged-reports-99.99', eq(g.pka_value, 99.99))
+
+
 # -- floating-point lemma ------------------------------------------------------
 
 def _hexbits(x):
@@ -233,6 +255,10 @@ def obligations(tier):
     obs.append(Obligation('O4-disulfide-consequence', o_disulfide_consequence,
                           code=['propka/group.py:Group.setup', 'propka/group.py:Group.calculate_total_pka', 'propka/group.py:Group.use_in_calculations'],
                           bounds='bridge flag in {0,1}, desolvation terms in [-5,5]'))
+    obs.append(Obligation('O4-disulfide-consequence[titrate_only]', o_disulfide_with_selection,
+                          code=['propka/conformation_container.py:ConformationContainer.init_group', 'propka/group.py:Group.setup', 'propka/group.py:Group.calculate_total_pka'],
+                          bounds='bridge flag in {0,1} x --titrate_only absent / naming the residue / naming another / empty', kind='table-check',
+                          claim_doc='titratable iff free and selected; a bridged cysteine is never titrated and reports 99.99'))
     return obs
 
 
